@@ -1713,6 +1713,105 @@ def mean_time_variable(mv, prefixes, target):
     return bool(cands), [n for n, v in cands.items() if close(v, target, rtol=RTOL)], cands
 
 
+def _transit_step(m1, p1, mv1, n, keep, k, head):
+    """one set_transit_compartments(n, keep_depot) step: count, equal rates n/MDT, mean transit time kept"""
+    mm = M()
+    classes = []
+    detail = f'{head}: set_transit_compartments({n}, keep_depot={keep})'
+    m2 = call(mm.set_transit_compartments, m1, n, keep, clause='set_transit_compartments')
+    p2 = extend_point(m2, p1, k, new_params={q: 0.4 + abs(_gval(i, k, -2.0, 2.0)) for i, q in enumerate(new_names(m2.parameters.names, m1.parameters.names))})
+    mv2 = evaluate(m2, p2)
+    tr2 = transit_rates(m2, p2, mv2)
+    tr1 = transit_rates(m1, p1, mv1)
+    if len(tr2) != n:
+        raise Violation('transit:count', observed=[c for c, _ in tr2], expected=n, detail=detail)
+    classes += [f'n={n}', f'from={len(tr1)}', f'keep_depot={keep}']
+    ttag = ''
+    if n == 1 and len(tr1) > 1 and not m2.statements.ode_system.find_transit_compartments(m2.statements):
+        ttag = '[reduced-to-one-transit-without-depot]'
+    if n > 0:
+        rates = [v for _, v in tr2]
+        if not all(finite(v) and v > 0 for v in rates):
+            raise Reject('transit rate not positive at point')
+        if not all(close(v, rates[0], rtol=RTOL) for v in rates):
+            raise Violation('transit:unequal-rates', observed=tr2, detail=detail)
+        mtt = F.mean_transit_time(rates)
+        asserted, hit, cands = mean_time_variable(mv2, ('MDT',), mtt)
+        if asserted:
+            if not hit:
+                raise Violation(f'transit{ttag}:mean-transit-time-is-not-MDT', observed=mtt, expected=cands, detail=f'{detail}; rates {tr2}; sum of 1/rate vs MDT variables')
+            classes.append('mdt-checked')
+        if tr1:
+            mtt1 = F.mean_transit_time([v for _, v in tr1])
+            if not close(mtt, mtt1, rtol=RTOL):
+                raise Violation(f'transit{ttag}:mean-transit-time-not-kept', observed=mtt, expected=mtt1, detail=f'{detail}; before {tr1}; after {tr2}')
+            classes.append('kept-checked')
+    return m2, p2, mv2, classes, detail
+
+
+TRH_PRIORS = ['none', 'fo_abs', 'none', 'fo_abs', 'lag', 'cov_exp', 'seq_abs']
+TRH_SPEC = st.fixed_dictionaries(
+    dict(m=model_ids(), gen=idx(NGEN), prior=idx(len(TRH_PRIORS)), ns=st.lists(idx(5), min_size=2, max_size=3), keep=st.lists(idx(3), min_size=3, max_size=3),
+         k=st.integers(0, 30), r=st.integers(0, 400))
+)
+
+
+def run_transit_history(spec):
+    """histories of transit-count changes n1 -> n2 (-> n3), both directions incl. reductions to 1 and 0, on models with and
+    without depot; the documented relations are checked after every step"""
+    mid = resolve_model(spec['m'])
+    gen = spec['gen'] % NGEN
+    prior = TRH_PRIORS[spec['prior'] % len(TRH_PRIORS)]
+    k, r = spec['k'], spec['r']
+    pars0 = individual_parameters(mid, gen)
+    cont, _ = covariate_columns(mid, gen)
+    m = get_prior(mid, gen, prior, pars0[0] if pars0 else '', cont[0])
+    if m.statements.ode_system is None:
+        raise Reject('no ODE system')
+    ns = [n % 5 for n in spec['ns'][:3]]
+    keeps = [(q % 3 != 0) for q in (list(spec['keep']) + [1, 1, 1])[:3]]
+    if len(ns) < 2:
+        raise Reject('history needs two steps')
+    p = base_point(m, k, r)
+    mv = evaluate(m, p)
+    mv_start = mv
+    head = f'{mid} gen={gen} prior={prior}'
+    depot0 = m.statements.ode_system.find_depot(m.statements) is not None
+    classes, renders = [f'prior={prior}', 'start-with-depot' if depot0 else 'start-without-depot'], []
+    cls = []
+    for j, (n, keep) in enumerate(zip(ns, keeps)):
+        try:
+            m2, p2, mv2, cls, detail = _transit_step(m, p, mv, n, keep, k, head)
+        except Reject as rj:
+            if j == 0:
+                raise
+            raise Reject(f'step{j + 1}:{rj.why}')
+        except Violation as v:
+            v.detail = f'step {j + 1} after {renders}: {v.detail}'
+            raise
+        renders.append(detail.split(': ', 1)[-1])
+        if j > 0:
+            a, b = int(cls[1].split('=')[1]), n
+            classes.append('change=' + ('up' if b > a else 'down' if b < a else 'same') + (f'-to-{b}' if b < 2 and b < a else ''))
+        d = compare(mv_start, mv2, rtol=RTOL, check_ode=False)
+        if d is not None:
+            raise Violation('absorption:observation-changed', observed=_j(d[1]), expected=_j(d[2]), detail=f'step {j + 1} after {renders}; {d[0]}')
+        m, p, mv = m2, p2, mv2
+    classes += [c for c in cls if c.endswith('checked')]
+    return CaseInfo(nontrivial=True, classes=tuple(classes), key=f'{mid}|{gen}|{prior}|{ns}|{keeps[:len(ns)]}', render=dict(case=f'{head}: ' + ' ; '.join(renders)), evals=len(ns) + 1)
+
+
+def _enum_transit_history(tier):
+    """every change n1 -> n2 with n1, n2 in 0..4 on two models with depot and two without"""
+    for m in ('basic_oral', 'mox2', 'basic_iv', 'pheno'):
+        if m not in model_names():
+            continue
+        for n1 in range(5):
+            for n2 in range(5):
+                if n1 != n2:
+                    yield dict(m=m, gen=0, prior=0, ns=[n1, n2], keep=[1, 1, 1], k=1, r=2)
+
+
 def run_transit_absorption(spec):
     mm = M()
     mid = resolve_model(spec['m'])
@@ -1733,35 +1832,8 @@ def run_transit_absorption(spec):
     if ext == 'transit':
         n = spec['n'] % 7
         keep = spec['keep'] % 3 != 0
-        detail = f'{head}: set_transit_compartments({n}, keep_depot={keep})'
-        m2 = call(mm.set_transit_compartments, m1, n, keep, clause='set_transit_compartments')
-        p2 = extend_point(m2, p1, k, new_params={q: 0.4 + abs(_gval(i, k, -2.0, 2.0)) for i, q in enumerate(new_names(m2.parameters.names, m1.parameters.names))})
-        mv2 = evaluate(m2, p2)
-        tr2 = transit_rates(m2, p2, mv2)
-        tr1 = transit_rates(m1, p1, mv1)
-        if len(tr2) != n:
-            raise Violation('transit:count', observed=[c for c, _ in tr2], expected=n, detail=detail)
-        classes += [f'n={n}', f'from={len(tr1)}', f'keep_depot={keep}']
-        ttag = ''
-        if n == 1 and len(tr1) > 1 and not m2.statements.ode_system.find_transit_compartments(m2.statements):
-            ttag = '[reduced-to-one-transit-without-depot]'
-        if n > 0:
-            rates = [v for _, v in tr2]
-            if not all(finite(v) and v > 0 for v in rates):
-                raise Reject('transit rate not positive at point')
-            if not all(close(v, rates[0], rtol=RTOL) for v in rates):
-                raise Violation('transit:unequal-rates', observed=tr2, detail=detail)
-            mtt = F.mean_transit_time(rates)
-            asserted, hit, cands = mean_time_variable(mv2, ('MDT',), mtt)
-            if asserted:
-                if not hit:
-                    raise Violation(f'transit{ttag}:mean-transit-time-is-not-MDT', observed=mtt, expected=cands, detail=f'{detail}; rates {tr2}; sum of 1/rate vs MDT variables')
-                classes.append('mdt-checked')
-            if tr1:
-                mtt1 = F.mean_transit_time([v for _, v in tr1])
-                if not close(mtt, mtt1, rtol=RTOL):
-                    raise Violation(f'transit{ttag}:mean-transit-time-not-kept', observed=mtt, expected=mtt1, detail=f'{detail}; before {tr1}; after {tr2}')
-                classes.append('kept-checked')
+        m2, p2, mv2, cls, detail = _transit_step(m1, p1, mv1, n, keep, k, head)
+        classes += cls
         key = f'transit|{n}|{keep}'
     else:
         fn = dict(zo=mm.set_zero_order_absorption, fo=mm.set_first_order_absorption, seq=mm.set_seq_zo_fo_absorption)[ext]
@@ -1880,4 +1952,5 @@ SUBCHECKS = [
     SubCheck('error', lambda: ERR_SPEC, run_error, quick=550, thorough=9750),
     SubCheck('error_multidv', lambda: MDV_SPEC, run_error_multidv, quick=150, thorough=2660, enumerate=_enum_multidv),
     SubCheck('transit_absorption', lambda: ABS_SPEC, run_transit_absorption, quick=300, thorough=5320),
+    SubCheck('transit_history', lambda: TRH_SPEC, run_transit_history, quick=120, thorough=2000, enumerate=_enum_transit_history),
 ]
